@@ -38,5 +38,14 @@ mut('c15-parse-tree-not-restored', 'C15', MC, "self.cur_guess.parse_tree = parse
 mut('c15-save-resets-last-index', 'C15', MC, "pickle.dump(self.cur_guess.parse_tree, file)", "pickle.dump([x[:2] + [0] for x in self.cur_guess.parse_tree], file)", desc='saved parse tree loses the per-position indices')
 mut('c15-quit-honoured-one-guess-late', 'C15', G, "            if self.should_exit:", "            if self.should_exit and num_guesses > 1:", benign=True, desc='quit inside a level honoured from the 2nd guess on: stop position moves, nothing lost or repeated')
 mut('c15-restore-level-minus-one', 'C15', MC, "            self.target_level = pickle.load(file)", "            self.target_level = max(0, pickle.load(file) - 0)", benign=True)
+# ---- C12
+mut('revert-F-C12', 'C12', CS, "if self.pcfg.should_exit:", "if not user_thread.is_alive():")
+M.append({'name': 'revert-F-C12b', 'props': ['C12'], 'benign': False, 'desc': 'status report failure ends the helper thread again',
+          'edits': [{'file': CS, 'old': "            try:\n                report.print_status(pcfg)\n            except Exception as msg:\n                print(\"Unable to display the status report: \" + str(msg),file=sys.stderr)\n",
+                     'new': "            report.print_status(pcfg)\n"}]})
+mut('c12-any-input-quits', 'C12', CS, "if user_input == 'q':", "if user_input:")
+mut('c12-quit-mid-preterminal', 'C12', G, "                    self.print_guess(new_guess)", "                    self.print_guess(new_guess)\r\n                    if self.should_exit: return num_guesses", nth=1)
+mut('c12-no-save-on-quit', 'C12', CS, "                self._save_session()\n                print(\"Exiting...\",file=sys.stderr)\n                break", "                print(\"Exiting...\",file=sys.stderr)\n                break")
+mut('c12-status-resets-counter', ['C12'], 'lib_guesser/status_report.py', "        status_item = pcfg.get_status(static_pt_item['pt'])", "        status_item = pcfg.get_status(static_pt_item['pt']); pcfg.omen_optimizer.tmto_lookup[2].clear()", benign=True, desc='status request clears part of the OMEN cache: no effect on the stream (C10)')
 json.dump(M, open(os.path.join(os.path.dirname(os.path.abspath(__file__)), 'mutants.json'), 'w'), indent=1)
 print(len(M), 'mutants')
